@@ -18,7 +18,6 @@ From PV Require Import Common.Util Gen.StateConsts StateVar.StateModel StateVar.
 Section Spec.
   Variable H : host.
   Variable funcs : list ename.
-  Variable svcargs : list (ident * ident).
   Variable now : N.                      (* logical time of the step *)
 
   (* the documented virtual fields: entity_id (the entity's name), last_updated, last_changed, last_reported (times).
@@ -32,8 +31,8 @@ Section Spec.
   (* R1: the snapshot of an entity *)
   Definition snapshot_of (e : ename) (s : hastate) : pyval := PSnap (hs_val s) (aupdate (hs_attrs s) (virtual_fields e s)).
 
-  (* attribute k of entity e: virtual fields first (documented to take precedence), then the entity's attributes,
-     then StateVal's helper methods *)
+  (* state attribute k of entity e: virtual fields first (documented to take precedence), then the entity's attributes,
+     then StateVal's documented helper methods *)
   Definition entity_attr (e : ename) (s : hastate) (k : ident) : res pyval :=
     match alookup k (virtual_fields e s) with
     | Some v => Ok (PVal v)
@@ -77,14 +76,22 @@ Section Spec.
         end
     | [d; n; k] =>
         match denote locals st d n with
-        | DPyLocal _ | DPyGlobal _ => Raise EAttributeError       (* the object's attributes are plain values *)
+        | DPyLocal o | DPyGlobal o =>                             (* the object's attributes are plain values *)
+            match alookup n o with
+            | Some v => if h_pyattr H v k then Ok PFunc else Raise EAttributeError
+            | None => Raise EAttributeError
+            end
         | dd =>
             match ha_get (ms_ha st) (d, n) with
             | Some s =>
-                if svc_method svcargs d k then Ok PFunc            (* entity service method *)
+                if svc_method (ms_svcargs st) d k then Ok PFunc   (* entity service method (table of the last refresh) *)
                 else match entity_attr (d, n) s k with
                      | Ok v => Ok v
-                     | Raise _ => Raise EAttributeError
+                     | Raise _ =>                                 (* no such state attribute: attribute of what d.n denotes *)
+                         match dd with
+                         | DCallable => Raise EAttributeError
+                         | _ => if h_strattr H k then Ok PFunc (* a snapshot is a str *) else Raise EAttributeError
+                         end
                      end
             | None => match dd with DCallable => Raise EAttributeError | _ => Raise ENameError end
             end
@@ -102,7 +109,12 @@ Section Spec.
         end
     | [d; n; k] =>
         match ha_get (ms_ha st) (d, n) with
-        | Some s => if svc_method svcargs d k then Ok PFunc else entity_attr (d, n) s k
+        | Some s =>
+            if svc_method (ms_svcargs st) d k then Ok PFunc
+            else match entity_attr (d, n) s k with
+                 | Ok v => Ok v
+                 | Raise _ => if h_strattr H k then Ok PFunc else Raise EAttributeError
+                 end
         | None => Raise ENameError
         end
     | _ => Raise ENameError
@@ -213,7 +225,7 @@ Section Spec.
     end.
 
   (* R5: state.exist *)
-  Definition spec_exist (m : hamap) (nm : sname) : bool :=
+  Definition spec_exist (svcargs : list (ident * ident)) (m : hamap) (nm : sname) : bool :=
     match nm with
     | [d; n] => match ha_get m (d, n) with Some _ => true | None => false end
     | [d; n; k] =>
@@ -244,8 +256,9 @@ Section Spec.
     match p with
     | PSnap _ d => match alookup k d with
                    | Some v => Ok (PVal v)
-                   | None => if mem_ident k state_callable_attrs then Ok PFunc else Raise EAttributeError
+                   | None => if mem_ident k state_callable_attrs || h_strattr H k then Ok PFunc else Raise EAttributeError
                    end
+    | PVal v => if h_pyattr H v k then Ok PFunc else Raise EAttributeError
     | PObj o => obj_attr o k
     | _ => Raise EAttributeError
     end.
@@ -265,7 +278,7 @@ Section Spec.
     | OSetattr nm v => lift_ha st (spec_setattr (ms_ha st) nm v)
     | ODel e => if dn_len_ok e then lift_st st (spec_del_expr locals st (dn_parts e)) else (Raise EUnmodelled, st)
     | ODelete nm => lift_ha st (spec_delete (ms_ha st) nm)
-    | OExist nm => (Ok (PVal (h_bool H (spec_exist (ms_ha st) nm))), st)
+    | OExist nm => (Ok (PVal (h_bool H (spec_exist (ms_svcargs st) (ms_ha st) nm))), st)
     | OGetattr nm => (spec_getattr (ms_ha st) (inr nm), st)
     | OGetattrSlot j => (spec_getattr (ms_ha st) (inl (slot_get j (ms_slots st))), st)
     | ONames dom => (spec_names (ms_ha st) dom, st)
@@ -282,12 +295,12 @@ Section Spec.
 End Spec.
 
 (* a run starting at logical time [now]; every step takes one tick *)
-Fixpoint run_spec (H : host) (funcs : list ename) (svcargs : list (ident * ident)) (now : N) (st : mstate)
+Fixpoint run_spec (H : host) (funcs : list ename) (now : N) (st : mstate)
          (steps : list step) : list (option (res pyval)) * mstate :=
   match steps with
   | [] => ([], st)
   | s :: r =>
-      let o := spec_step H funcs svcargs now st s in
-      let rest := run_spec H funcs svcargs (N.succ now) (snd o) r in
+      let o := spec_step H funcs now st s in
+      let rest := run_spec H funcs (N.succ now) (snd o) r in
       (fst o :: fst rest, snd rest)
   end.
